@@ -1,5 +1,6 @@
 """Definition of the Mux Component."""
 
+from numbers import Integral
 
 import numpy as np
 
@@ -75,6 +76,8 @@ class MuxComp(ExplicitComponent):
         kwgs = dict(options)
         in_shape = np.asarray(options['val']).shape \
             if options['shape'] is None else options['shape']
+        if isinstance(in_shape, Integral):
+            in_shape = (in_shape,)
         in_size = shape_to_len(in_shape)
         out_shape = list(in_shape)
         out_shape.insert(options['axis'], vec_size)
